@@ -55,11 +55,21 @@ def job(mod, key: dict, specs: list[dict], wall_s: float, fn: str = "execute") -
 def eval_many(pool: Pool, mod, key: dict, specs: list[dict]) -> list[Optional[dict]]:
     if hasattr(mod, "eval_many"):
         return mod.eval_many(pool, key, specs)
-    res = pool.run([job(mod, key, [s], 180.0) for s in specs])
+    # a spec of the form {"history": [s0 .. sk]} is a *process history*: the runs are executed one after the other in
+    # ONE fresh fork (as they were in the block of the search that found the violation) and the verdict is that of
+    # the last one - for violations that need state left behind by earlier runs of the same process
+    res = pool.run([job(mod, key, (s["history"] if "history" in s else [s]), 180.0 + 2.0 * len(s.get("history", ()))) for s in specs])
     out: list[Optional[dict]] = []
-    for r in res:
+    for s, r in zip(specs, res):
         if r is None or not r.get("ok"):
             out.append(None)
+        elif "history" in s:
+            runs = r["result"]["runs"]
+            rr = dict(runs[-1])
+            rr["log_digest"] = digest([x.get("log_digest", "") for x in runs])
+            if rr.get("verdict") == "violation":
+                rr["spec"] = {"history": list(s["history"][:-1]) + [rr.get("spec") or s["history"][-1]]}
+            out.append(rr)
         else:
             out.append(r["result"]["runs"][0])
     return out
@@ -177,6 +187,7 @@ class Agg:
 
 def generic_search(pool: Pool, mod, tier: str, seed: int, deadline: float, agg: Agg) -> None:
     units = mod.plan(seed, tier)
+    agg.units = units
     jobs = [job(mod, u["key"], u["specs"], u.get("wall_s", 180.0)) for u in units]
     agg.planned = sum(len(u["specs"]) for u in units)
 
@@ -243,19 +254,40 @@ def run_check(mod, tier: str, seed: int) -> int:
                 print(l)
             # 3. violations: confirm in a fresh fork, minimise, write + replay the file, report
             reported: set[str] = set()
-            cand = list(pinned_viol) + [(k, s, rr) for (_o, k, s, rr) in sorted(agg.violations, key=lambda x: x[0])]
-            for key, spec, rr in cand:
+            cand = [(None, k, s, rr) for (k, s, rr) in pinned_viol] + [(o, k, s, rr) for (o, k, s, rr) in sorted(agg.violations, key=lambda x: x[0])]
+            for order, key, spec, rr in cand:
                 vclass = rr["violation"]["class"]
                 if vclass in reported:
                     continue
                 reported.add(vclass)
                 again = single(pool, mod, key, spec)
+                units_ = getattr(agg, "units", None)
+                if (again.get("verdict") != "violation" or again["violation"]["class"] != vclass) and units_ and isinstance(order, tuple) \
+                        and order[1] > 0 and not hasattr(mod, "eval_many"):
+                    # not reproducible alone: it may need what earlier runs of the same forked process left behind.
+                    # Re-run the run together with its predecessors in the block (shortest suffix of the history first)
+                    ui, k = order
+                    prefix = units_[ui]["specs"][: k + 1]
+                    n = 1
+                    while True:
+                        n = min(n, k)
+                        a2 = single(pool, mod, key, {"history": prefix[k - n:]})
+                        if a2.get("verdict") == "violation" and a2["violation"]["class"] == vclass:
+                            again, spec = a2, a2["spec"]
+                            print(f"  (violation class={vclass} needs process history: reproduced with its {n} predecessor run(s) in one fresh process)")
+                            break
+                        if n >= k:
+                            break
+                        n *= 2
                 if again.get("verdict") != "violation" or again["violation"]["class"] != vclass:
                     print(f"HARNESS-ERROR property={mod.ID} nonreplayable violation class={vclass}: {rr['violation'].get('message', '')[:800]}")
                     exit_code = EXIT_HARNESS
                     continue
                 spec = again.get("spec") or spec
-                mspec, minfo = minimise(pool, mod, key, spec, vclass, env_float("VERIF_MIN_BUDGET_S", 60.0))
+                if "history" in spec:
+                    mspec, minfo = spec, {"process_history_runs": len(spec["history"]), "note": "shortest reproducing suffix of the block; single runs not minimised"}
+                else:
+                    mspec, minfo = minimise(pool, mod, key, spec, vclass, env_float("VERIF_MIN_BUDGET_S", 60.0))
                 final = single(pool, mod, key, mspec)
                 if final.get("verdict") != "violation" or final["violation"]["class"] != vclass:
                     mspec, final = spec, again
